@@ -1625,6 +1625,16 @@ func (sc *serverConn) verifyState(strm *Stream, fr *FrameHeader) error {
 			return nil
 		}
 
+		// DATA after the peer's own END_STREAM is a stream error (RFC 7540
+		// 5.1, half-closed (remote)): the request that is being handled is
+		// given up, the other requests on the connection are not. The octets
+		// still came out of the connection window.
+		if fr.Type() == FrameData {
+			sc.consumeConnWindow(fr.Len())
+
+			return NewResetStreamError(StreamClosedError, "DATA on a half-closed stream")
+		}
+
 		if fr.Type() != FrameWindowUpdate && fr.Type() != FramePriority && fr.Type() != FrameResetStream {
 			return NewGoAwayError(StreamClosedError, "wrong frame on half-closed stream")
 		}
